@@ -194,7 +194,15 @@ func assignable(v, t types.Type) (ok bool) {
 	if types.AssignableTo(v, t) {
 		return true
 	}
-	// type parameters / instantiated generics are not judged (go/types cannot decide outside the declaring scope)
+	// a TYPED alternative free of generics for a result declared as a bare type parameter is decidable, and
+	// never assignable: only values of the type parameter itself (and untyped constants / nil) are
+	if _, isParam := t.(*types.TypeParam); isParam && !mentionsGenerics(v, 0) {
+		if b, ok := v.(*types.Basic); !ok || b.Info()&types.IsUntyped == 0 {
+			return false
+		}
+	}
+	// other types with type parameters / instantiated generics are not judged (go/types cannot decide outside
+	// the declaring scope)
 	if mentionsGenerics(t, 0) || mentionsGenerics(v, 0) {
 		return true
 	}
@@ -365,7 +373,75 @@ import (
 )
 `
 
+// genericCorpusSource: hand-written generic functions whose results are declared as type parameters and come
+// from conversions, constants, parameters and calls (the real closure has few of these)
+const genericCorpusSource = `package gencorp
+
+import "errors"
+
+type Number interface{ ~int | ~int64 | ~float64 }
+
+func Scale[T ~int | ~int64](x int) T { return T(x * 2) }
+
+func Clamp[T ~int](a, b int) (r T) {
+	v := max(a, b)
+	r = T(v)
+	return
+}
+
+func Sum[T Number](xs []int, n int) (T, error) {
+	if n < 0 {
+		return 0, errors.New("negative")
+	}
+	return T(len(xs) + n), nil
+}
+
+func Id[T any](x T) T { return x }
+
+func Conv[T ~string](s string) T { return T(s) }
+
+func Zero[T any]() (z T) { return }
+
+func Pick[T Number](a, b T, first bool) T {
+	if first {
+		return a
+	}
+	return b + T(1)
+}
+
+func Both[K comparable, V Number](k K, v int) (K, V) { return k, V(v) + 1 }
+
+func Ptr[T any](v T) *T { return &v }
+
+func Must[T any](v T, err error) T {
+	if err != nil {
+		panic(err)
+	}
+	return v
+}
+
+func Chain[T ~int](x int) T { return Must(Scale[T](x), nil) }
+
+type Box[T any] struct{ V T }
+
+func (b Box[T]) Get() T { return b.V }
+
+func (b Box[T]) GetOr(d T) (T, bool) {
+	var zero Box[T]
+	_ = zero
+	return d, false
+}
+
+func Wrap[T ~int](x int) Box[T] { return Box[T]{V: T(x)} }
+`
+
 func runCorpus(c *core.Ctx) {
+	{
+		dir := pipe.TempDir("c14gen")
+		defer os.RemoveAll(dir)
+		_ = pipe.WriteTree(dir, pipe.Tree{"go.mod": pipe.GoMod("x.io/gencorp", "1.24"), "gencorp.go": genericCorpusSource})
+		runCorpusNamed(c, "generic", dir, ".")
+	}
 	runCorpusNamed(c, "real", core.RepoDir(), "github.com/octohelm/gengo/...")
 	if c.Thorough() {
 		dir := pipe.TempDir("c14std")
@@ -451,6 +527,12 @@ func replay(c *core.Ctx, raw json.RawMessage) {
 	}
 	// real / std corpus: analyse the one unit in a child (it may be fatal)
 	cdir, pattern := core.RepoDir(), "github.com/octohelm/gengo/..."
+	if cs.Corpus == "generic" {
+		cdir = pipe.TempDir("c14gen")
+		defer os.RemoveAll(cdir)
+		_ = pipe.WriteTree(cdir, pipe.Tree{"go.mod": pipe.GoMod("x.io/gencorp", "1.24"), "gencorp.go": genericCorpusSource})
+		pattern = "."
+	}
 	if cs.Corpus == "std" {
 		cdir = pipe.TempDir("c14std")
 		defer os.RemoveAll(cdir)
